@@ -3,6 +3,7 @@ package checks
 import (
 	"fmt"
 	"os"
+	"strings"
 	"testing"
 
 	"verif/explore"
@@ -15,29 +16,25 @@ func TestDbgSched(t *testing.T) {
 	if name == "" {
 		t.Skip()
 	}
+	if name == "c08-restart" {
+		x := explore.RunPrefix(c08RestartScenario(), vrt.Options{TraceSync: os.Getenv("DBGTRACE") != ""}, dbgPrefix())
+		fmt.Println("choices", x.Choices)
+		for i, ci := range x.Infos {
+			fmt.Printf("%d:N%d,k%d,p%v ", i, ci.N, ci.Kind, ci.Preempt)
+		}
+		fmt.Println()
+		for _, l := range x.RT.SyncTrace {
+			fmt.Println("   ", l)
+		}
+		fmt.Println(x.Out.Trace, x.Out.Violations, x.Out.EngineErr)
+		return
+	}
 	for _, s := range append(c02SchedSpecs(true), coreSchedSpecs(true)...) {
 		if s.Name != name {
 			continue
 		}
 		sc := EngineScenario(s, nil, []Oracle{OracleLinearizable("C02")}, nil)
-		var prefix []int
-		var v int
-		rest := os.Getenv("DBGPREFIX")
-		for {
-			n, err := fmt.Sscan(rest, &v)
-			if n == 0 || err != nil {
-				break
-			}
-			prefix = append(prefix, v)
-			i := 0
-			for i < len(rest) && rest[i] == ' ' {
-				i++
-			}
-			for i < len(rest) && rest[i] != ' ' {
-				i++
-			}
-			rest = rest[i:]
-		}
+		prefix := dbgPrefix()
 		x := explore.RunPrefix(sc, vrt.Options{Fine: s.Fine, TraceSync: os.Getenv("DBGTRACE") != ""}, prefix)
 		fmt.Println("choices", x.Choices)
 		for i, ci := range x.Infos {
@@ -50,4 +47,14 @@ func TestDbgSched(t *testing.T) {
 		fmt.Println(x.Out.Trace)
 		fmt.Println(x.Out.Violations)
 	}
+}
+
+func dbgPrefix() []int {
+	var prefix []int
+	for _, f := range strings.Fields(os.Getenv("DBGPREFIX")) {
+		var v int
+		fmt.Sscan(f, &v)
+		prefix = append(prefix, v)
+	}
+	return prefix
 }
